@@ -31,6 +31,8 @@ def gen_case(rng, i):
     T = common.make_tables(rng, join='join' in feats, header_p=0.5)
     g = gq.G(rng, T['A'], T['a_names'], T['B'], T['b_names'])
     q = g.gen_select(feats)
+    if rng.random() < 0.04:
+        q['with'] = rng.choice(['header', 'noheader', 'headers', 'noheaders'])      # list tables take their names from the caller: a no-op here
     return common.case_json(q, T)
 
 
@@ -40,11 +42,13 @@ def classify(mech, case, got, ref):
 
 def plan(tier, seed):
     k = NSHARDS[tier]
-    return [{'k': k, 'i': i, 'n': CASES[tier] // k} for i in range(k)]
+    return [{'k': k, 'i': i, 'n': CASES[tier] // k} for i in range(k)] + [{'kind': 'typed', 'i': i, 'n': 150 if tier == 'quick' else 1500} for i in range(2 if tier == 'quick' else 8)]
 
 
 def run_shard(spec, res):
     ns = env.import_rbql()
+    if spec.get('kind') == 'typed':
+        return leg_typed(ns, res, spec)
     rng = random.Random(spec['seed'] * 1000003 + spec['i'])
     js = common.JsLeg(res, PROPERTY, classify)
     try:
@@ -70,11 +74,113 @@ def run_shard(spec, res):
         js.close()
 
 
+# ---------------------------------------------------------------------------------------------------------------
+# typed front-ends: "aN is r's N-th field" when the records come from a dataframe or a sqlite table - the field is the cell, with the cell's own type
+
+def typed_value(rng, kind, i):
+    if kind == 'int':
+        return rng.choice([0, 1, 2, 7, -3, 10 ** 6, 2 ** 53 + 1, 2 ** 62 + i])
+    if kind == 'float':
+        return rng.choice([0.5, 1.0, -2.25, 1e300, 3.0, 0.1 + i])
+    if kind == 'str':
+        return rng.choice(['a', 'b', '', 'x y', '10', '1.0', 'None', 'nan'])
+    if kind == 'bool':
+        return rng.choice([True, False])
+    if kind == 'bytes':
+        return rng.choice([b'', b'\x00\xff', b'ab'])
+    return None
+
+
+def show(v):
+    return '%s:%r' % (type(v).__name__, v)
+
+
+def leg_typed(ns, res, spec):
+    import sqlite3
+    import pandas as pd
+    rng = random.Random(spec['seed'] * 15485863 + spec['i'])
+
+    class Sink(ns.engine.RBQLOutputWriter):
+        def __init__(self):
+            self.rows = []
+
+        def write(self, fields):
+            self.rows.append(list(fields))
+            return True
+
+    names_pool = ['id', 'qty', 'price', 'name', 'flag', 'v', 'w', 'k2']
+    for n in range(spec['n']):
+        front = ['pandas', 'sqlite'][n % 2]
+        w = rng.randrange(1, 5)
+        names = rng.sample(names_pool, w)
+        kinds = [rng.choice(['int', 'float', 'str', 'int', 'float', 'bool'] if front == 'pandas' else ['int', 'float', 'str', 'bytes', 'mixed', 'int']) for _ in range(w)]
+        if n % 7 == 0:
+            kinds = [rng.choice(['int', 'float']) for _ in range(w)]      # an all-numeric table
+        nrows = rng.randrange(1, 6)
+        cols = []
+        for j, k in enumerate(kinds):
+            if k == 'mixed':
+                cols.append([typed_value(rng, rng.choice(['int', 'float', 'str', 'none', 'bytes']), i) for i in range(nrows)])
+            else:
+                cols.append([typed_value(rng, k, i) for i in range(nrows)])
+        rows = [[cols[j][i] for j in range(w)] for i in range(nrows)]
+        if front == 'pandas':
+            df = pd.DataFrame({names[j]: pd.Series(cols[j], dtype={'int': 'int64', 'float': 'float64', 'bool': 'bool', 'str': 'object'}[kinds[j]]) for j in range(w)})
+            if n % 5 == 3:
+                df.index = pd.Index([100 + i for i in range(nrows)], name='rowkey')      # an index that carries a name: still not a field
+            elif n % 5 == 1:
+                df.index = pd.MultiIndex.from_tuples([(i // 2, 'k%d' % i) for i in range(nrows)], names=['k1', 'k2'])
+            make_iter = lambda: ns.pandas.DataframeIterator(df, normalize_column_names=True)
+            conn = None
+        else:
+            conn = sqlite3.connect(':memory:')
+            conn.execute('CREATE TABLE t (%s)' % ', '.join('"%s" %s' % (x, {'int': 'INTEGER', 'float': 'REAL', 'str': 'TEXT', 'bytes': 'BLOB', 'mixed': ''}[k]) for x, k in zip(names, kinds)))
+            big = [r for r in rows if any(isinstance(v, int) and not isinstance(v, bool) and abs(v) >= 2 ** 63 for v in r)]
+            if big:
+                continue
+            conn.executemany('INSERT INTO t VALUES (%s)' % ','.join('?' * w), rows)
+            conn.commit()
+            make_iter = lambda: ns.sqlite.SqliteRecordIterator(conn, 't')
+        j = rng.randrange(w)
+        k = rng.randrange(w)
+        queries = [
+            ('select *', lambda r, nr: list(r), None),
+            ('select a%d' % (j + 1), lambda r, nr: [r[j]], None),
+            ('select a.%s, a["%s"], NR' % (names[j], names[k]), lambda r, nr: [r[j], r[k], nr], None),
+            ('select NF, a%d, a[%d]' % (k + 1, j + 1), lambda r, nr: [len(r), r[k], r[j]], None),
+            ('select type(a%d).__name__, a%d' % (j + 1, j + 1), lambda r, nr: [type(r[j]).__name__, r[j]], None),
+            ('select a%d, a%d where a%d is not None' % (j + 1, k + 1, j + 1), lambda r, nr: [r[j], r[k]], lambda r, nr: r[j] is not None),
+            ('select * where isinstance(a%d, int)' % (j + 1), lambda r, nr: list(r), lambda r, nr: isinstance(r[j], int)),
+            ('select a%d, * where NR %% 2 == 1' % (w + 2), lambda r, nr: [None] + list(r), lambda r, nr: nr % 2 == 1),
+        ]
+        for qtext, proj, pred in queries:
+            sink = Sink()
+            err = None
+            try:
+                ns.rbql.query(qtext, make_iter(), sink, [])
+            except Exception as e:
+                err = '%s: %s' % (type(e).__name__, str(e)[:150])
+            exp = [proj(r, i + 1) for i, r in enumerate(rows) if pred is None or pred(r, i + 1)]
+            res.evaluations += 1
+            res.count('typed_front_end_runs:' + front)
+            res.nontrivial('typed', front, qtext, repr(rows))
+            got_s = None if err else [[show(v) for v in r] for r in sink.rows]
+            exp_s = [[show(v) for v in r] for r in exp]
+            if got_s != exp_s:
+                res.violation('py:typed-front-end-field-is-not-the-cell:' + front, '[py/%s] %s over columns %r (kinds %r) rows %r -> %s ; expected %r' % (front, qtext, names, kinds, [[show(v) for v in r] for r in rows], err or got_s, exp_s),
+                              {'leg': 'typed', 'front_end': front, 'query_text': qtext, 'names': names, 'kinds': kinds, 'rows': [[show(v) for v in r] for r in rows]})
+                break
+        if conn is not None:
+            conn.close()
+        if n % 97 == 0:
+            res.sample({'leg': 'typed', 'front_end': front, 'columns': names, 'kinds': kinds, 'rows': [[show(v) for v in r] for r in rows][:3]})
+
+
 def summarize(tier, seed, m):
     shapes = sorted(k[6:] for k in m['counters'] if k.startswith('shape:'))
     return {
-        'rule': 'structured SELECT queries (1-4 items over fields in 5 spellings, typed expressions, literals, *, a.*, b.*, * EXCEPT, UNNEST; WHERE; INNER/LEFT JOIN with 1-3 key pairs incl. NR/bNR; TOP) generated with a systematic sweep over the 64 clause combinations plus seeded random choices, on random tables of str/None cells (ragged, empty, up to 40 rows, 12 columns), with and without header; each executed through rbql.query with probe iterator/writer/registry and compared (rows exactly and in order, header, error class + record number) with the reference interpreter; the language-neutral ones also on the JS engine. distinct_nontrivial = distinct (query text, tables) with a non-empty reference result or a predicted error.',
-        'required': ['py_cases', 'emitted_records_observed', 'js_cases'],
+        'rule': 'structured SELECT queries (1-4 items over fields in 5 spellings, typed expressions, literals, *, a.*, b.*, * EXCEPT, UNNEST; WHERE; INNER/LEFT JOIN with 1-3 key pairs incl. NR/bNR; TOP) generated with a systematic sweep over the 64 clause combinations plus seeded random choices, on random tables of str/None cells (ragged, empty, up to 40 rows, 12 columns), with and without header; each executed through rbql.query with probe iterator/writer/registry and compared (rows exactly and in order, header, error class + record number) with the reference interpreter; the language-neutral ones also on the JS engine; a typed front-ends leg: dataframes (int64 / float64 / bool / object columns, all-numeric frames, integers beyond 2**53, a named index, a two-level named index) through DataframeIterator and sqlite tables (INTEGER / REAL / TEXT / BLOB / untyped columns with NULLs) through SqliteRecordIterator, eight select / where shapes each, every emitted field compared with the cell by value AND type. distinct_nontrivial = distinct (query text, tables) with a non-empty reference result or a predicted error.',
+        'required': ['py_cases', 'emitted_records_observed', 'js_cases', 'typed_front_end_runs:pandas', 'typed_front_end_runs:sqlite'],
         'extra': {'shapes_seen': shapes},
         'assumptions': ['rv/model/refsem.py is the relational semantics of the statement', 'expressions are drawn from the typed vocabulary of rv/model/qast.py'],
     }
